@@ -329,3 +329,33 @@ def xthread_case(variant):
         ss += [p.emit([p.str("main-3"), p.call(co("resume"), [p.id("c"), p.str("B")])])]
     ss.append(p.emit([p.str("end"), p.id("x"), p.call(p.id("f"), []), p.id("pad1"), p.id("pad5")]))
     return p, p.block(ss)
+
+
+def taillevel_case(ntail, query, rng):
+    """levels beyond activations lost to proper tail calls: outer calls f, f calls the first link, ntail links tail-call on
+    to k, k asks about level 1, the level of f (2 + ntail) and the level of outer (3 + ntail)"""
+    p = Prog()
+    ss = []
+    levels = [1, 2 + ntail, 3 + ntail]
+    if query == "info":
+        kbody = [p.local(["i"], [p.call(_dbg(p, "getinfo"), [p.id("L"), p.str("l")])]), p.local(["s"], [p.call(_dbg(p, "getinfo"), [p.id("L"), p.str("S")])]),
+                 p.emit([p.str("k"), p.id("L"), p.field(p.id("i"), "currentline"), p.field(p.id("s"), "linedefined"), p.field(p.id("s"), "lastlinedefined")]),
+                 p.ret([p.str("k-done")])]
+    elif query == "local":
+        kbody = [p.local(["kown"], [p.str("k-local")]), p.emit([p.str("k"), p.id("L"), p.call(_dbg(p, "getlocal"), [p.id("L"), p.num(1)]), p.call(_dbg(p, "getlocal"), [p.id("L"), p.num(2)])]),
+                 p.ret([p.str("k-done")])]
+    else:
+        kbody = [p.callstat(p.call(p.id("error"), [p.str("E"), p.id("L")])), p.ret([p.str("not-reached")])]
+    ss.append(p.localfunction("k", p.func(["L"], p.block(kbody))))
+    prev = "k"
+    for j in range(ntail):
+        nm = "t%d" % j
+        pad = [p.local(["pad%d" % j], [p.num(j)])] if rng.random() < 0.5 else []
+        ss.append(p.localfunction(nm, p.func(["L"], p.block(pad + [p.ret([p.call(p.id(prev), [p.id("L")])])]))))
+        prev = nm
+    ss.append(p.localfunction("f", p.func(["L"], p.block([p.local(["marker"], [p.str("in-f")]), p.local(["r"], [p.call(p.id(prev), [p.id("L")])]),
+                                                          p.emit([p.str("f-after"), p.id("r"), p.id("marker")]), p.ret([p.id("r")])]))))
+    ss.append(p.localfunction("outer", p.func(["L"], p.block([p.local(["om"], [p.str("in-outer")]), p.local(["r2"], [p.call(p.id("f"), [p.id("L")])]), p.ret([p.id("r2"), p.id("om")])]))))
+    for L in levels:
+        ss.append(p.emit([p.str("run"), p.num(L), p.call(p.id("pcall"), [p.id("outer"), p.num(L)])]))
+    return p, p.block(ss)
